@@ -114,6 +114,13 @@ func writeReplayPool(rf *ReplayFile, parallel int) string {
 
 // finalize verifies, minimises and re-verifies a finding.
 func finalize(f *finding, base uint64, pool []*c14sim.Key, parallel int) *ReplayFile {
+	if f.Class == "lone-calls-disagree" {
+		k := *f.Pool[0]
+		k.ID = 0
+		rf := &ReplayFile{Tool: toolVersion, Property: "C14", Class: f.Class, Detail: f.Detail, BaseSeed: base, Pool: []*c14sim.Key{&k}, Minimised: true}
+		rf.ReplayVerified, _, _ = refsDisagree(&k, 12, parallel)
+		return rf
+	}
 	rf := compact(f, base, pool)
 	poolPath := writeReplayPool(rf, parallel)
 	defer os.Remove(poolPath)
@@ -264,6 +271,17 @@ func doReplay(path string, parallel int) int {
 	if err := drv.ReadJSON(path, &rf); err != nil {
 		fatal("%v", err)
 	}
+	if rf.Class == "lone-calls-disagree" {
+		if len(rf.Pool) == 0 {
+			fatal("replay file without a key")
+		}
+		if d, x, y := refsDisagree(rf.Pool[0], 16, parallel); d {
+			fmt.Printf("16 lone first calls of %s(%q) in fresh processes: results differ\n  %s\n  %s\nVIOLATION property=C14 replay=%s\n", rf.Pool[0].API, clip(rf.Pool[0].Source, 200), clip(x, 600), clip(y, 600), path)
+			return drv.ExitViolation
+		}
+		fmt.Println("not reproduced: 16 lone first calls in fresh processes agree")
+		return drv.ExitHeld
+	}
 	poolPath := writeReplayPool(&rf, parallel)
 	defer os.Remove(poolPath)
 	for attempt := 0; attempt < 3; attempt++ {
@@ -279,6 +297,13 @@ func doReplay(path string, parallel int) int {
 			return drv.ExitViolation
 		}
 		if attempt == 2 {
+			// a reference that is not a function of its key makes "differs from the reference" a matter of chance
+			for _, k := range rf.Pool {
+				if d, x, y := refsDisagree(k, 12, parallel); d {
+					fmt.Printf("the recorded schedule did not reproduce class %q, but lone first calls of %s(%q) in fresh processes disagree with each other:\n  %s\n  %s\nVIOLATION property=C14 replay=%s\n", rf.Class, k.API, clip(k.Source, 200), clip(x, 600), clip(y, 600), path)
+					return drv.ExitViolation
+				}
+			}
 			fmt.Printf("not reproduced (observed class %q)\n", c)
 		}
 	}
